@@ -327,3 +327,46 @@ theorem collectReceiverEnergy_eq (P B S : Nat) (E : Nat → Nat → Nat → ℝ)
   rw [key P, if_pos hi]
 
 end Sparrow
+
+namespace Sparrow
+open Sparrow.Generated.Kernels
+
+/-- **Bands are independent in the translated source** (`_energy_exchange`): band `b` of the result
+    depends on the initial energies and transfer factors of band `b` only — two calls whose data
+    agree in band `b` (and share geometry, delays and index maps) agree in band `b`, for every
+    order, histogram length and number of bands. -/
+theorem energyExchange_band_local (n_samples P D B : Nat) (e0 e0' : Nat → Nat → Nat → ℝ)
+    (s0 : Nat) (distance_0 : Nat → ℝ) (s1 s2 : Nat) (distance_ij : Nat → Nat → ℝ)
+    (P' : Nat) (fft fft' : Nat → Nat → Nat → Nat → ℝ) (s3 s4 : Nat) (p2o : Nat → Nat → Nat)
+    (c dt : ℝ) (K nVis s5 : Nat) (vp : Nat → Nat → Nat) (b : Nat)
+    (he : ∀ j d, e0 j d b = e0' j d b) (hf : ∀ i j d, fft i j d b = fft' i j d b)
+    (hwf : (exSceneOfArgs n_samples P D e0 distance_0 distance_ij fft p2o c dt nVis vp b).WF)
+    (j d t : Nat) (hj : j < P) (hd : d < D) (ht : t < n_samples) :
+    energyExchange n_samples P D B e0 s0 distance_0 s1 s2 distance_ij P P' D B fft s3 s4 p2o c dt K
+        nVis s5 vp j d b t =
+      energyExchange n_samples P D B e0' s0 distance_0 s1 s2 distance_ij P P' D B fft' s3 s4 p2o c dt K
+        nVis s5 vp j d b t := by
+  have hsc : exSceneOfArgs n_samples P D e0 distance_0 distance_ij fft p2o c dt nVis vp b =
+      exSceneOfArgs n_samples P D e0' distance_0 distance_ij fft' p2o c dt nVis vp b := by
+    unfold exSceneOfArgs
+    congr 1
+    · funext j d; exact he j d
+    · funext i j d; exact hf i j d
+  rw [energyExchange_eq n_samples P D B e0 s0 distance_0 s1 s2 distance_ij P' fft s3 s4 p2o c dt K nVis s5 vp b
+        hwf j d t hj hd ht,
+      energyExchange_eq n_samples P D B e0' s0 distance_0 s1 s2 distance_ij P' fft' s3 s4 p2o c dt K nVis s5 vp b
+        (hsc ▸ hwf) j d t hj hd ht, hsc]
+
+/-- … and in the translated receiver kernel: band `b` of the output depends on band `b` of the
+    patch histograms and on the attenuation coefficient of band `b` only. -/
+theorem collectReceiverEnergy_band_local (P B S : Nat) (E E' : Nat → Nat → Nat → ℝ) (s0 : Nat) (dist : Nat → ℝ)
+    (c dt : ℝ) (s1 : Nat) (att att' : Nat → ℝ) (i b t : Nat) (hi : i < P) (hb : b < B)
+    (hE : ∀ i t, E i b t = E' i b t) (ha : att b = att' b) :
+    collectReceiverEnergy P B S E s0 dist c dt s1 att i b t =
+      collectReceiverEnergy P B S E' s0 dist c dt s1 att' i b t := by
+  rw [collectReceiverEnergy_eq P B S E s0 dist c dt s1 att i b t hi hb,
+      collectReceiverEnergy_eq P B S E' s0 dist c dt s1 att' i b t hi hb]
+  unfold collectRollF
+  simp only [hE, ha]
+
+end Sparrow
